@@ -1,4 +1,5 @@
 import DateutilVerif.Properties.C17
+import DateutilVerif.Properties.TzObjGen   -- translator tie (wt-iso): obligations about the re-translated tzical functions
 #print axioms C17.cache_transparent
 #print axioms C17.cache_step
 #print axioms C17.select_two
@@ -10,3 +11,10 @@ import DateutilVerif.Properties.C17
 #print axioms C17.onsets_of_yearly_rule
 #print axioms C17.ical_eq_tzstr_partial
 #print axioms C17.parse_offset_bad_length
+#print axioms C17.gen_eq_model_parse_offset
+#print axioms C17.gen_eq_model_find_compdt
+#print axioms C17.gen_eq_model_find_comp
+#print axioms C17.gen_eq_model_find_comp_idx
+#print axioms C17.gen_eq_model_utcoffset
+#print axioms C17.gen_eq_model_dst
+#print axioms C17.cache_step_gen
